@@ -143,6 +143,9 @@ func ShrinkPlan(t *testing.T, def propDef, plan *Plan, assertion string, budget 
 			if def.KeepStep != nil && def.KeepStep(&p.Steps[i]) {
 				return false // the skeleton keeps its timing as well
 			}
+			if k := p.Steps[i].Kind; k == "is_run" || k == "is_advance" {
+				return false // here the "gap" is the amount of time the step lets pass, not a delay before it
+			}
 			if p.Steps[i].GapUS <= 1000 {
 				return false
 			}
